@@ -505,6 +505,31 @@ def ref_rule(prop):
     todo = [(m, q) for m, t in sorted(CURATED.items()) for q, props in sorted(t.items()) if prop in props]
 
     def run(r):
+        # classes with a curated method: a special method (pickling, copying, attribute access, comparison ...) that the
+        # reference class did not define changes how every instance behaves without touching any compared function
+        seen_cls = set()
+        for modname, qual in todo:
+            if "." not in qual:
+                continue
+            rel = "sasmodels/%s.py" % modname
+            cls = qual.split(".")[0]
+            if (rel, cls) in seen_cls:
+                continue
+            seen_cls.add((rel, cls))
+            mod = pf.module(rel)
+            entry = _bodies().get(rel, {})
+            ref_dunder = {q.split(".")[1] for q in entry.get("bodies", {}) if q.startswith(cls + ".") and q.count(".") == 1
+                          and q.split(".")[1].startswith("__") and q.endswith("__")}
+            back = {v: k for k, v in rename_map().get(rel, {}).items()}
+            cur_dunder = {}
+            for q, f_ in mod.functions.items():
+                q0 = back.get(q, q)
+                if q0.startswith(cls + ".") and q0.count(".") == 1 and q0.split(".")[1].startswith("__") and q0.endswith("__"):
+                    cur_dunder[q0.split(".")[1]] = f_
+            for name in sorted(set(cur_dunder) - ref_dunder):
+                r.violation(rel, "%s.%s" % (cls, name), "special method %s added to a class on the property's evaluation path" % name,
+                            cur_dunder[name].lineno, "the confirmed reference class defines %s; %s changes how every instance is "
+                            "pickled / copied / accessed / compared, none of which the compared functions show" % (sorted(ref_dunder), name))
         for modname, qual in todo:
             rel = "sasmodels/%s.py" % modname
             mod = pf.module(rel)
